@@ -38,6 +38,8 @@ def scan_sink_results(crate, writer_fns=()):
                 continue
             if is_sink and not is_writer and _into_string(B, t, inst):
                 continue   # formatting into a String: an in-memory value, not the output sink (and it cannot fail)
+            if is_writer and not is_sink and "l" in (t.get("dest") or {}) and B.local_ty(t["dest"]["l"]).strip() == "()":
+                continue   # a writer that returns nothing has nothing to propagate here: its own writes are judged inside it
             kinds = {k for k, _ in M.result_flow(B, bb, t)}
             if b.get("closure") and any(k.endswith("returned") for k in kinds):
                 verdict = _closure_result_consumer(crate, b)
